@@ -155,12 +155,21 @@ def run_split(R, rng, sp, label, tier, force_sequence=False):
         if force_sequence or rng.random() < 0.3:
             duplicate_via_imports(R, tmp, label)
         # duplicate definitions across two added modules must fail the link
-        for what in ("function", "global"):
+        # (these links do not depend on the generated program beyond its first root: twice per shard is enough)
+        _DUP_RUNS[0] += 1
+        for what in ("function", "global", "global-of-one-type", "global-vector-of-one-type") if _DUP_RUNS[0] <= 2 else ():
             a = "dupa_%s" % what
             b = "dupb_%s" % what
             if what == "function":
                 ta = "export function dup (int x) -> int {\n  return x + 100;\n}\n"
                 tb = "export function dup (int x) -> int {\n  return x + 200;\n}\n"
+            elif what == "global-of-one-type":
+                # the two declarations agree in type: still two definitions of one global
+                ta = "int gdup;\nexport function fa (int x) -> int {\n  gdup = x;\n  return gdup;\n}\n"
+                tb = "int gdup;\nexport function fb (int x) -> int {\n  return gdup + x;\n}\n"
+            elif what == "global-vector-of-one-type":
+                ta = "float3 gdup;\nexport function fa (float x) -> float {\n  gdup.y = x;\n  return gdup.y;\n}\n"
+                tb = "float3 gdup;\nexport function fb (float x) -> float {\n  return gdup.x + x;\n}\n"
             else:
                 ta = "int gdup;\nexport function fa (int x) -> int {\n  gdup = x;\n  return gdup;\n}\n"
                 tb = "float gdup;\nexport function fb (int x) -> float {\n  return gdup + x;\n}\n"
@@ -177,7 +186,7 @@ def run_split(R, rng, sp, label, tier, force_sequence=False):
                                                 "calls": [], "listing_of": None})
                 R.count("duplicate_definition_links")
                 if not res.get("error"):
-                    R.violation("duplicate-%s-not-rejected" % what, "%s: two added modules both define the same %s and the link succeeds" % (label, what),
+                    R.violation("duplicate-%s-not-rejected" % what, "%s: two added modules both define the same %s and the link succeeds" % (label, what.split("-")[0]),
                                 {"sources": {a: ta, b: tb}, "add_order": list(order)})
                 else:
                     R.count("duplicate_rejected")
@@ -211,6 +220,9 @@ def link_sequence_shared_objects(R, rng, tmp, sp, root_names, gl0, label):
                         {"sources": {n: sp.layouts[n][0] for n in sp.layouts}, "sequence": [r["modules"] for r in rounds], "failing_link": k})
             return
     R.count("link_sequences_agree")
+
+
+_DUP_RUNS = [0]
 
 
 def duplicate_via_imports(R, tmp, label):
